@@ -295,6 +295,23 @@ def check_stmt(name, tier, acc, only=None):
         continue
       nsteps += drive(top, group, dict(group=group, seq=si))
       acc.count("schedules_run")
+  # the pass-group CLASSES users apply (passes/PassGroups.py, passes/mamba/PassGroups.py), not only their constituent passes
+  from pymtl3.passes.PassGroups import DefaultPassGroup, SimpleSimPass
+  from pymtl3.passes.mamba.PassGroups import UnrollSim, HeuTopoUnrollSim, Mamba2020
+  for gname, mk in (("pg:DefaultPassGroup", lambda: DefaultPassGroup()), ("pg:SimpleSimPass", lambda: SimpleSimPass()),
+                    ("pg:UnrollSim", lambda: UnrollSim(print_line_trace=False)), ("pg:HeuTopoUnrollSim", lambda: HeuTopoUnrollSim(print_line_trace=False)),
+                    ("pg:Mamba2020", lambda: Mamba2020(print_line_trace=False))):
+    if only and only != (gname, 0): continue
+    try:
+      top = cls()
+      top.elaborate()
+      top.apply(mk())
+    except UpblkCyclicError:
+      if gname in ("pg:DefaultPassGroup", "pg:Mamba2020"): raise
+      acc.add("stmt_cyclic_at_block_level", name)
+      continue
+    nsteps += drive(top, gname, dict(group=gname, seq=0))
+    acc.count("schedules_run")
   orders = set()
 
   def run(cr):
